@@ -1,14 +1,18 @@
 // appended to src/builtin/regex.rs — C11 (regex constructor, denied branch)
 use crate::runtime::RuntimeLimits;
 
+fn trip_dfa_new(_pattern: &str) -> Result<DFA, regex_automata::hybrid::BuildError> {
+    panic!("tripwire: the regex must not be compiled when the permission is denied")
+}
 native_harness! {
+#[kani::stub(regex_automata::hybrid::dfa::DFA::new, trip_dfa_new)]
 #[kani::unwind(4)]
 fn c11_regex_denied() {
     let mut root = RootCompilationScope::<RecW, RecR, RecT>::new();
     add_regex_new(&mut root).unwrap();
     let nc = last_native(&root);
     let rt: RtRec = runtime_rec(RuntimeLimits::default());
-    let ns = empty_scope(&rt);
+    let ns = crate::runtime_scope::verif_kani::bare_scope();
     let args = vec![err("poison", &rt)];
     let r = nc(&args, &ns, false, rt.clone());
     let (w, c, g) = effects();
